@@ -408,3 +408,89 @@ def check(case):
 
 
 UNITS = [Unit("edits", gen, check, shards=(4, 16))]
+
+
+# ----------------------------------------------------------------------------------------------- sequences of edits on one tree
+
+def check_sequence(case):
+    """Several token-editing operations applied one after the other to the SAME tree object; after every step the tree must
+    equal the reference edit applied to the model of the previous step."""
+    current = M.copy(case["tree"]["root"])
+    sid = case["tree"]["sid"]
+    tree = M.build(case["tree"], T)
+    affected = 0
+    for step, op in enumerate(case["ops"]):
+        kind = op["kind"]
+        prefix = "C11/sequence/" + kind
+        toks = M.toks(current)
+        if kind == "punct":
+            drop = set(t["n"] for t in toks if t["w"] in PUNCT)
+            if len(drop) == len(toks):
+                drop = set()
+            result, _ = quietly(prefix, transform.punctuation_delete, tree, quiet=True)
+            expected = prune(current, drop)
+            affected += len(drop)
+        elif kind == "delete":
+            if len(toks) < 2:
+                continue
+            target = toks[op["which"] % len(toks)]
+            leaf = [n for n in M.snapshot(tree)[1].values() if not n.children and n.data.get("num") == target["n"]][0]
+            quietly(prefix, T.delete_terminal, tree, leaf)
+            result = tree
+            expected = prune(current, {target["n"]})
+            affected += 1
+        elif kind == "insert":
+            lines = [(sid, idx, "INS%d" % step, "PX") for idx in sorted(set(op["indices"]))]
+            path = terminal_file(lines)
+            try:
+                result, _ = quietly(prefix, transform.insert_terminals, tree, terminalfile=path, quiet=True)
+            finally:
+                os.remove(path)
+            requests = {l[1]: (l[2], l[3]) for l in lines}
+            _sent, inserted = reference_insert([(t["w"], t["p"]) for t in toks], requests)
+            expected = M.copy(current)
+            for idx in inserted:
+                for tok in M.toks(expected):
+                    if tok["n"] >= idx:
+                        tok["n"] += 1
+                expected["c"].append({"w": requests[idx][0], "p": requests[idx][1], "n": idx, "e": "--", "lem": "--", "m": "--"})
+            affected += len(inserted)
+        elif kind == "substitute":
+            lines = [(sid, idx, "SUB%d" % step) for idx in sorted(set(op["indices"]))]
+            path = terminal_file(lines)
+            try:
+                result, _ = quietly(prefix, transform.substitute_terminals, tree, terminalfile=path, quiet=True)
+            finally:
+                os.remove(path)
+            expected = M.copy(current)
+            etoks = M.toks(expected)
+            for l in lines:
+                if 1 <= l[1] <= len(etoks):
+                    etoks[l[1] - 1]["w"] = l[2]
+                    affected += 1
+        else:
+            raise AssertionError(kind)
+        if result is not tree:
+            raise violation(prefix + "/returned-node-not-root", "step %d" % (step + 1))
+        compare(prefix, tree, expected, "step %d (%s) after %r" % (step + 1, kind, [o["kind"] for o in case["ops"][:step]]))
+        current = expected
+    return affected, len(M.toks(current))
+
+
+def gen_sequences(ctx):
+    quick = ctx.tier == "quick"
+    op = st.one_of(st.fixed_dictionaries({"kind": st.just("punct")}),
+                   st.fixed_dictionaries({"kind": st.just("delete"), "which": st.integers(0, 20)}),
+                   st.fixed_dictionaries({"kind": st.just("insert"), "indices": st.lists(st.integers(0, 12), min_size=1, max_size=3)}),
+                   st.fixed_dictionaries({"kind": st.just("substitute"), "indices": st.lists(st.integers(0, 12), min_size=1, max_size=3)}))
+    strategy = st.fixed_dictionaries({"tree": base_tree(8 if quick else 12, punct_words()), "ops": st.lists(op, min_size=2, max_size=5)})
+
+    def body(case):
+        affected, left = check_sequence(case)
+        ctx.count(key=case, nontrivial=affected > 0 and left > 0, classes=["sequence:ops=%d" % len(case["ops"])] + ["sequence:" + k for k in set(o["kind"] for o in case["ops"])])
+        if affected >= 3:
+            ctx.sample({"ops": case["ops"], "tree": case["tree"]["root"]}, cap=1)
+    ctx.hyp(strategy, body, max_examples=800 if quick else 5000)
+
+
+UNITS.append(Unit("sequences", gen_sequences, check_sequence, shards=(2, 8)))
